@@ -19,13 +19,14 @@
 (* real trace drives.                                                      *)
 (* A rejected trace is model drift (evidence), not an alarm.               *)
 (***************************************************************************)
-EXTENDS Mkdir2, Json, IOUtils, TLC
+EXTENDS Mkdir2, Partial, Json, IOUtils, TLC
 
 Rec == ndJsonDeserialize(IOEnv.TRACE)
 ToSetL(s) == {s[i] : i \in DOMAIN s}
 
-VARIABLE l
-tvars == <<vars, l>>
+VARIABLES l,
+          emu      \* TRUE: the recorded case ran on the emulated backend (openat2 masked)
+tvars == <<vars, l, emu>>
 
 PName(i) == IF i = 0 THEN "p1" ELSE "p2"
 FsOf(e) ==
@@ -38,7 +39,7 @@ Consume == l' = l + 1
 Live(e) == {PName(i - 1) : i \in 1..Len(e.paths)}
 
 TraceInit ==
-    /\ l = 1
+    /\ l = 1 /\ emu = FALSE
     /\ fs = [dents |-> {}, kind |-> [i \in Ino |-> "free"], body |-> [i \in Ino |-> <<>>]] /\ fs0 = fs
     /\ pth = [p \in Procs |-> <<".">>]
     /\ pc = [p \in Procs |-> "idle"] /\ k = [p \in Procs |-> 1] /\ lasterr = [p \in Procs |-> ""]
@@ -47,7 +48,7 @@ TraceInit ==
 
 \* a new recorded case: tree, callers' paths, first free inode number
 T_Init ==
-    /\ l <= Len(Rec) /\ E.ev = "init" /\ Consume
+    /\ l <= Len(Rec) /\ E.ev = "init" /\ Consume /\ emu' = (E.d2 = 0)
     /\ fs' = FsOf(E) /\ fs0' = FsOf(E)
     /\ pth' = [p \in Procs |-> IF p \in Live(E) THEN E.paths[IF p = "p1" THEN 1 ELSE 2] ELSE <<".">>]
     /\ pc' = [p \in Procs |-> IF p \in Live(E) THEN "try" ELSE "done"]
@@ -62,26 +63,44 @@ Step(p) == LibStep(p) /\ everIn' = everIn \cup ReachFrom(fs', {R}) /\ pth' = pth
 Silent ==
     /\ \E p \in Procs :
          /\ \/ pc[p] = "reopen"
-            \/ pc[p] = "try" /\ k[p] > Len(Attempts(Path(p)))
+            \/ pc[p] = "try" /\ k[p] > Len(Attempts(Path(p))) /\ ~emu
          /\ Step(p)
-    /\ UNCHANGED l
+    /\ UNCHANGED <<l, emu>>
+
+\* emulated backend: the whole walk of opath::resolve_partial is one model step whose result is PartialE (the
+\* SymlinkStack model of Partial.tla); its recorded system calls are consumed as stuttering before it.  The result is
+\* bound to the implementation's by the very next recorded call: mkdirat(dir, name) must use PartialE's directory and
+\* first remaining component.  (One process only: the walk is not atomic with respect to another caller.)
+T_Walk ==
+    /\ l <= Len(Rec) /\ E.ev = "sys" /\ E.nr \in {"openat", "fstat", "readlink", "dpath"} /\ Consume
+    /\ emu /\ pc[PName(E.who)] = "try"
+    /\ UNCHANGED <<vars, emu>>
+TryE ==
+    /\ emu /\ pc["p1"] = "try"
+    /\ LET r == PartialE(fs, Path("p1")) IN
+       IF ~r.ok THEN /\ res' = [res EXCEPT !["p1"] = Err(r.err)] /\ pc' = [pc EXCEPT !["p1"] = "done"] /\ UNCHANGED <<cur, parts, lasterr>>
+       ELSE /\ cur' = [cur EXCEPT !["p1"] = r.ino] /\ parts' = [parts EXCEPT !["p1"] = r.rem] /\ lasterr' = [lasterr EXCEPT !["p1"] = r.lasterr]
+            /\ pc' = [pc EXCEPT !["p1"] = "reopen"] /\ UNCHANGED res
+    /\ who' = "p1"
+    /\ UNCHANGED <<fs, fs0, pth, k, nextIno, natk, everIn, outsideMk, l, emu>>
 
 \* openat2 answered EAGAIN (a rename or mount somewhere on the machine moved the kernel's seqlocks): the
 \* implementation repeats the same attempt (src/resolvers/openat2.rs, up to 16 times); no model step
 T_TryAgain ==
     /\ l <= Len(Rec) /\ E.ev = "sys" /\ E.nr = "openat2" /\ E.flag = "EAGAIN" /\ Consume
     /\ LET p == PName(E.who) IN
-       /\ pc[p] = "try" /\ k[p] <= Len(Attempts(Path(p)))
+       /\ pc[p] = "try" /\ k[p] <= Len(Attempts(Path(p))) /\ ~emu
        /\ E.body = Attempts(Path(p))[k[p]].anc
-    /\ UNCHANGED vars
+    /\ UNCHANGED <<vars, emu>>
 T_Try ==
     /\ l <= Len(Rec) /\ E.ev = "sys" /\ E.nr = "openat2" /\ E.flag # "EAGAIN" /\ Consume
     /\ LET p == PName(E.who) IN
-       /\ pc[p] = "try" /\ k[p] <= Len(Attempts(Path(p)))
+       /\ pc[p] = "try" /\ k[p] <= Len(Attempts(Path(p))) /\ ~emu
        /\ E.body = Attempts(Path(p))[k[p]].anc                     \* the path the implementation asked the kernel for
        /\ LET r == KResolve(fs, R, Attempts(Path(p))[k[p]].anc, FollowFlags, KMaxLinks) IN
             IF E.ret >= 0 THEN r.ok /\ r.ino = E.rid ELSE ~r.ok /\ r.err = E.flag
        /\ Step(p)
+    /\ UNCHANGED emu
 T_Mk ==
     /\ l <= Len(Rec) /\ E.ev = "sys" /\ E.nr = "mkdirat" /\ Consume
     /\ LET p == PName(E.who) IN
@@ -89,6 +108,7 @@ T_Mk ==
        /\ LET m == Mkdirat(fs, cur[p], Head(parts[p]), nextIno) IN
             IF E.ret = 0 THEN m.res.ok /\ E.rid = nextIno ELSE ~m.res.ok /\ m.res.err = E.flag
        /\ Step(p)
+    /\ UNCHANGED emu
 T_Open ==
     /\ l <= Len(Rec) /\ E.ev = "sys" /\ E.nr = "openat" /\ Consume
     /\ LET p == PName(E.who) IN
@@ -96,26 +116,27 @@ T_Open ==
        /\ LET o == OpenatNoFollow(fs, cur[p], Head(parts[p])) IN
             IF E.ret >= 0 THEN o.ok /\ o.ino = E.rid ELSE (~o.ok /\ o.err = E.flag) \/ (o.ok /\ ~IsDir(fs, o.ino) /\ E.flag = "ENOTDIR")
        /\ Step(p)
+    /\ UNCHANGED emu
 \* fstat / d_path reads of the reopen: no model counterpart
 T_Stutter ==
     /\ l <= Len(Rec) /\ E.ev = "sys" /\ E.nr \in {"fstat", "dpath"} /\ Consume
     /\ pc[PName(E.who)] \in {"reopen", "mk", "done"}
-    /\ UNCHANGED vars
+    /\ UNCHANGED <<vars, emu>>
 T_End ==
     /\ l <= Len(Rec) /\ E.ev = "end" /\ Consume
     /\ LET p == PName(E.who) IN
        /\ pc[p] = "done"
        /\ (E.ret = 0) = res[p].ok
-       /\ IF res[p].ok THEN res[p].ino = E.rid ELSE res[p].err = E.flag
-    /\ UNCHANGED vars
+       /\ IF res[p].ok THEN res[p].ino = E.rid ELSE (res[p].err = E.flag \/ (res[p].err = "INTERNAL" /\ E.flag = "InternalError"))
+    /\ UNCHANGED <<vars, emu>>
 T_Skip ==
     /\ l <= Len(Rec) /\ E.ev = "snap" /\ Consume
     /\ AllDone
     \* the real final tree is the model's final tree
     /\ fs.dents = FsOf(E).dents
-    /\ UNCHANGED vars
+    /\ UNCHANGED <<vars, emu>>
 
-TraceNext == T_Init \/ Silent \/ T_TryAgain \/ T_Try \/ T_Mk \/ T_Open \/ T_Stutter \/ T_End \/ T_Skip
+TraceNext == T_Init \/ Silent \/ T_Walk \/ TryE \/ T_TryAgain \/ T_Try \/ T_Mk \/ T_Open \/ T_Stutter \/ T_End \/ T_Skip
 TraceSpec == TraceInit /\ [][TraceNext]_tvars
 
 Progress == TLCSet(1, IF TLCGet(1) > l THEN TLCGet(1) ELSE l)
